@@ -1,0 +1,19 @@
+//go:build verif
+
+package yang
+
+// Exports for the verification harness in /verif (build tag "verif" only).
+// Add-only: nothing here is compiled into the normal package.
+
+// VerifAsRangeInt exposes (*Value).asRangeInt on a non-nil value.
+func VerifAsRangeInt(s string, min, max int64) (int64, error) {
+	return (&Value{Name: s}).asRangeInt(min, max)
+}
+
+// VerifParseChildRanges exposes YangRange.parseChildRanges.
+func VerifParseChildRanges(y YangRange, s string, decimal bool, fd uint8) (YangRange, error) {
+	return y.parseChildRanges(s, decimal, fd)
+}
+
+// VerifCoalesce exposes coalesce.
+func VerifCoalesce(r YangRange) YangRange { return coalesce(r) }
